@@ -145,6 +145,7 @@ class Session:
         bm = m.matcher.parse(b_text).simplify() if b_text is not None else m.matcher.never
         self.ctl = m.Controller(self.output, self.cm, fm, bm)
         self.ids = {}        # connection ordinal -> ids mentioned so far (for the table projection)
+        self.ncreate = {}    # (connection ordinal, id) -> new-id arguments fed so far
         self.tagconn = {}    # tag -> ordinal of the connection currently carrying it
 
     # ---- projections -----------------------------------------------------
@@ -171,8 +172,10 @@ class Session:
                 objs.append({'type': o.type or '', 'alive': bool(need(o, 'alive')),
                              'ct': ticks(need(o, 'create_time')), 'dt': ticks(need(o, 'destroy_time'))})
                 g += 1
-                if g > 5000:
-                    raise MachineryError('retrieve_object never raises for a generation out of range')
+                # an id cannot have more incarnations than creations were fed in: do not ask further
+                # (a lookup that answers for every generation then shows up as extra incarnations)
+                if g > self.ncreate.get((k, i), 0) + 1:
+                    break
             if objs:
                 out.append({'id': i, 'objs': objs})
         return out
@@ -260,6 +263,8 @@ def run(trace, render=None, color=False, snapshot_db=True):
             for a in ev['m']['args']:
                 if a['k'] in ('obj', 'new'):
                     ids.add(a['id'])
+                if a['k'] == 'new':
+                    S.ncreate[(k, a['id'])] = S.ncreate.get((k, a['id']), 0) + 1
                 if a['k'] == 'int':
                     ids.add(a['v'])
             if evrec.get('_nh_before') is not None and len(S.hist()) == evrec['_nh_before'] + 1:
@@ -300,7 +305,18 @@ def run(trace, render=None, color=False, snapshot_db=True):
                 return ev.get('line') or (printer.line(ev, **render) + '\n')
             return ev['raw'] + '\n' if 'raw' in ev else ev['text'] + '\n'
 
-    m.parse.into_sink(F(), S.output, S.cm)
+    try:
+        m.parse.into_sink(F(), S.output, S.cm)
+    except MachineryError:
+        raise
+    except BaseException as e:   # the tool failed: not a harness problem; recorded, judged by the caller
+        import traceback
+        trace['escaped'] = traceback.format_exc()[-2000:]
+        for evrec in events:
+            evrec.pop('_nh_before', None)
+            if 'obs' not in evrec:
+                evrec['obs'] = {'items': []}
+        return trace
     # into_sink has returned: the cleanup ran
     if state['pending'] is not None:
         # cannot happen: readline is always called again after a line
